@@ -109,7 +109,7 @@ def run(ctx):
     prog = ctx.prog
     ce = ConstEval(prog)
     spec = _load_spec()
-    ctx.clauses_decided = ["R1 one-based -> zero-based", "R2 column layouts", "R3 chemists' -> physicists'", "R4 triangular / block unpacking", "R5 permutation literals", "R6 labelled records attached by label", "R7 index maps of reshaping expressions (symbolic evaluation)", "R8 no placement by narrow counter fields"]
+    ctx.clauses_decided = ["R1 one-based -> zero-based", "R2 column layouts", "R3 chemists' -> physicists'", "R4 triangular / block unpacking", "R5 permutation literals", "R6 labelled records attached by label", "R7 index maps of reshaping expressions (symbolic evaluation)", "R8 no placement by narrow counter fields", "R9 VASP coordinate-mode switch", "R10 deferred application of section data"]
     ctx.clauses_declined = ["free-format and log-file parsers beyond R1/R3/R4/R5", "numerical accuracy of parsed values", "Fortran D exponents"]
 
     # ------------------------------------------------------------------ R2
@@ -566,6 +566,10 @@ def run(ctx):
     ctx.floor("R7", ctx.rules["R7"]["obligations"], 5, "index-map sites")
 
     check_narrow_counters(ctx)
+    from .c04 import check_vasp_mode_switch
+
+    check_vasp_mode_switch(ctx, "R9")
+    check_deferred_application(ctx)
 
 
 NARROW_POSITIVE = '''
@@ -622,6 +626,46 @@ def _narrow_uses(func, maxwidth=3):
                 elif isinstance(x, ast.Name) and x.id in tainted and isinstance(x.ctx, ast.Load):
                     out.append((n, tainted[x.id]))
     return out
+
+
+def check_deferred_application(ctx):
+    """R10: information collected while scanning sections in any order is applied only after the scan.
+
+    Molden: the pure/Cartesian tags may come before or after [GTO] and [MO]; the loop that turns shells pure must
+    therefore run after the section loop (no path from it back to a statement that records a tag).
+    """
+    from ..cfg import cfg_of
+
+    prog = ctx.prog
+    ctx.rule("R10", "data gathered from sections in any order is applied after all sections were read", "a tag that follows the section it concerns is ignored: shells keep the wrong size and a well-formed file is rejected or misread")
+    f = prog.func("iodata.formats.molden._load_low")
+    adds = [n for n in f.own_nodes() if isinstance(n, ast.Call) and isinstance(n.func, ast.Attribute) and n.func.attr == "add" and isinstance(n.func.value, ast.Name)]
+    if not adds:
+        raise AnalysisError("molden._load_low: cannot find the statements that record the pure-function tags")
+    setname = adds[0].func.value.id
+    uses = [n for n in f.own_nodes() if isinstance(n, ast.Compare) and any(isinstance(c, ast.Name) and c.id == setname for c in n.comparators) and isinstance(n.ops[0], ast.In)]
+    if not uses:
+        ctx.violate("R10", f"the recorded tags (`{setname}`) are never applied to the shells", f, f.node, construct="tags never applied")
+        return
+    cfg = cfg_of(f)
+    pm = prog.parents(f)
+
+    def stmt_of(node):
+        cur = node
+        while not isinstance(cur, ast.stmt):
+            cur = pm[id(cur)]
+        return cur
+
+    add_nodes = {cfg.idx(stmt_of(a)) for a in adds}
+    bad = []
+    for u in uses:
+        reach = cfg.reachable(cfg.idx(stmt_of(u)))
+        if reach & add_nodes:
+            bad.append(u)
+    if bad:
+        ctx.violate("R10", f"`{src_of(bad[0])}` applies the pure-function tags at a point from which more tags can still be read: a tag that comes later in the file (the Molden format fixes no section order) is ignored", f, bad[0])
+    else:
+        ctx.ok("R10", f"molden: the tags recorded in `{setname}` ({len(adds)} sites) are applied after the section loop; no tag can be read afterwards", f"{f.module.relpath}:{uses[0].lineno}")
 
 
 def check_narrow_counters(ctx):
